@@ -48,6 +48,10 @@ type c07env struct {
 	touched      int64
 	phantom      string
 	sent0        uint64
+	winArmed     int32
+	winTok       onet.TokenID
+	winFn        func()
+	winOpened    bool
 }
 
 type c07peer struct{ e *c07env }
@@ -338,6 +342,12 @@ func c07exec(c *h.Ctx, cs *h.Case) {
 			atomic.AddInt64(&e.flushStarted, 1)
 		case "cpm.done":
 			atomic.AddInt64(&e.flushDone, 1)
+		case "tm.found":
+			// the window of a `window` op: the message has found its tree and is on its way to transmitMux
+			if pm, ok := key.(*onet.ProtocolMsg); ok && pm != nil && pm.To != nil && atomic.LoadInt32(&e.winArmed) == 1 &&
+				pm.To.ID() == e.winTok && atomic.CompareAndSwapInt32(&e.winArmed, 1, 0) {
+				e.winFn()
+			}
 		}
 	})
 	defer func() { onet.VerifSetHook(nil); fix.Prepare = nil; fix.DoneAll() }()
@@ -432,13 +442,9 @@ func c07exec(c *h.Ctx, cs *h.Case) {
 		}
 		return nil, false
 	}
-	for _, op := range cs.Ops[1:] {
-		tk := strings.Fields(op)
-		wantReplies := -1
-		e.mu.Lock()
-		before := e.replies
-		e.mu.Unlock()
-		var err error
+	// build makes the message of one envelope op (protocol message or control message); wantReply: the peer
+	// must get an answer; tree: the tree a protocol message names
+	build := func(tk []string) (typ network.MessageTypeID, msg interface{}, wantReply bool, tree string, ok bool) {
 		switch {
 		case len(tk) == 5 && tk[1] == "proto":
 			to, tn := tokOf(tk[2])
@@ -458,13 +464,11 @@ func c07exec(c *h.Ctx, cs *h.Case) {
 				from = e.member(e.trees[tn], round)
 				from.TreeNodeID = spoofNode(tn)
 			default:
-				cs.Impl = append(cs.Impl, "bad-op")
-				continue
+				return
 			}
-			payload, ok := payloadOf(tk[4])
-			if !ok {
-				cs.Impl = append(cs.Impl, "bad-op")
-				continue
+			payload, pok := payloadOf(tk[4])
+			if !pok {
+				return
 			}
 			e.emptyBody = tk[4] == "empty"
 			pm := e.protoMsg(to, from, payload, tk[4] == "0")
@@ -473,7 +477,7 @@ func c07exec(c *h.Ctx, cs *h.Case) {
 				// announced as the plain handler type: the receive path takes the type of the decoded value
 				pm.MsgType = network.MessageType(&fix.M3{})
 			}
-			err = e.send(onet.ProtocolMsgID, pm, 0)
+			return onet.ProtocolMsgID, pm, false, tn, true
 		case len(tk) == 4 && tk[1] == "reqtree":
 			v := uint32(1)
 			switch tk[3] {
@@ -482,30 +486,137 @@ func c07exec(c *h.Ctx, cs *h.Case) {
 			case "2":
 				v = 7 // a version from the future: treated like the current one
 			}
-			if strings.HasPrefix(e.ov.VerifTreeState(e.treeID(tk[2])), "present") {
-				wantReplies = before + 1
-			}
-			err = e.send(onet.RequestTreeMsgID, &onet.RequestTree{TreeID: e.treeID(tk[2]), Version: v}, 0)
-		case tk[1] == "resptree":
+			want := strings.HasPrefix(e.ov.VerifTreeState(e.treeID(tk[2])), "present")
+			return onet.RequestTreeMsgID, &onet.RequestTree{TreeID: e.treeID(tk[2]), Version: v}, want, "", true
+		case len(tk) >= 4 && tk[1] == "resptree":
 			rt := &onet.ResponseTree{}
 			rest := tk[2:]
 			if rest[0] != "-" {
+				if len(rest) < 4 {
+					return
+				}
 				rt.TreeMarshal = e.tm(rest[0], rest[1], rest[2])
 				rest = rest[3:]
 			} else {
 				rest = rest[1:]
 			}
 			if rest[0] != "-" {
+				if len(rest) < 2 {
+					return
+				}
 				rt.Roster = e.roster(rest[0], rest[1])
 			}
-			err = e.send(onet.ResponseTreeMsgID, rt, 0)
+			return onet.ResponseTreeMsgID, rt, false, "", true
 		case len(tk) == 5 && tk[1] == "treemarshal":
-			err = e.send(onet.SendTreeMsgID, e.tm(tk[2], tk[3], tk[4]), 0)
+			return onet.SendTreeMsgID, e.tm(tk[2], tk[3], tk[4]), false, "", true
 		case len(tk) == 3 && tk[1] == "reqroster":
-			wantReplies = before + 1
-			err = e.send(onet.RequestRosterMsgID, &onet.RequestRoster{RosterID: e.rosterID(tk[2])}, 0)
+			return onet.RequestRosterMsgID, &onet.RequestRoster{RosterID: e.rosterID(tk[2])}, true, "", true
 		case len(tk) == 4 && tk[1] == "sendroster":
-			err = e.send(onet.SendRosterMsgID, e.roster(tk[2], tk[3]), 0)
+			return onet.SendRosterMsgID, e.roster(tk[2], tk[3]), false, "", true
+		case len(tk) == 4 && tk[1] == "config" && tk[2] == "1":
+			t, tok := e.toks[tk[3]]
+			if !tok {
+				return
+			}
+			return onet.ConfigMsgID, &onet.ConfigMsg{Config: onet.GenericConfig{Data: []byte("cfg")}, Dest: t.ID()}, false, "", true
+		}
+		return
+	}
+	for _, op := range cs.Ops[1:] {
+		tk := strings.Fields(op)
+		wantReplies := -1
+		e.mu.Lock()
+		before := e.replies
+		e.mu.Unlock()
+		var err error
+		switch {
+		case len(tk) >= 5 && tk[1] == "window":
+			// `window <to> <from> <body> | <envelope> | …`: the protocol message finds its tree; before it reaches
+			// transmitMux the tree's removal completes (no instance uses it) and the other envelopes are handled
+			// one after the other, each to its end; then the message goes on
+			var groups [][]string
+			bad := false
+			for _, x := range tk[5:] {
+				if x == "|" {
+					groups = append(groups, []string{"c07"})
+				} else if len(groups) == 0 {
+					bad = true
+				} else {
+					groups[len(groups)-1] = append(groups[len(groups)-1], x)
+				}
+			}
+			typ, msg, _, tn, ok := build([]string{"c07", "proto", tk[2], tk[3], tk[4]})
+			if !ok || bad {
+				cs.Impl = append(cs.Impl, "bad-op")
+				continue
+			}
+			for _, g := range groups {
+				if _, _, _, _, ok := build(g); !ok {
+					bad = true
+				}
+			}
+			if bad {
+				cs.Impl = append(cs.Impl, "bad-op")
+				continue
+			}
+			pm := msg.(*onet.ProtocolMsg)
+			extra := 0
+			var winErr string
+			e.winOpened = false
+			if pm.To != nil {
+				e.winTok = pm.To.ID()
+				e.winFn = func() {
+					if tn == "K" || tn == "Z" || (fix.RecOf(e.toks["fresh"+tn]) != nil && e.ov.VerifInstanceState(e.toks["fresh"+tn]) == "live") {
+						return // an instance uses the tree: its removal is not due
+					}
+					e.winOpened = true
+					e.ov.VerifC06Expire(e.treeID(tn))
+					for _, g := range groups {
+						t2, m2, want, _, _ := build(g)
+						if want {
+							extra++
+						}
+						e.ov.Process(&network.Envelope{ServerIdentity: e.cl.SI(0), MsgType: t2, Msg: m2})
+						for dl := time.Now().Add(5 * time.Second); atomic.LoadInt64(&e.flushStarted) != atomic.LoadInt64(&e.flushDone); time.Sleep(100 * time.Microsecond) {
+							if time.Now().After(dl) {
+								winErr = "a flush started inside the window does not end"
+								return
+							}
+						}
+					}
+				}
+				atomic.StoreInt32(&e.winArmed, 1)
+			}
+			err = e.send(typ, msg, 0)
+			if err == nil {
+				if qerr := e.quiesce(); qerr != nil {
+					fail("wedged", fmt.Sprintf("after %q: %v", op, qerr))
+					return
+				}
+			}
+			atomic.StoreInt32(&e.winArmed, 0)
+			if winErr != "" {
+				fail("wedged", fmt.Sprintf("in %q: %s", op, winErr))
+				return
+			}
+			if extra > 0 {
+				wantReplies = before + extra
+			}
+			if e.winOpened {
+				c.Count("window=opened")
+			} else {
+				c.Count("window=none")
+			}
+		case len(tk) == 5 && tk[1] == "proto", tk[1] == "reqtree", tk[1] == "resptree", tk[1] == "treemarshal", tk[1] == "reqroster", tk[1] == "sendroster":
+			typ, msg, want, _, ok := build(tk)
+			if !ok {
+				cs.Impl = append(cs.Impl, "bad-op")
+				continue
+			}
+			if want {
+				wantReplies = before + 1
+			}
+			err = e.send(typ, msg, 0)
 		case len(tk) == 3 && tk[1] == "storm":
 			// concurrent envelopes: protocol messages for a protocol the server does not have (each lists an
 			// instance and unlists it again) while deprecated tree messages for the requested tree look
@@ -596,6 +707,12 @@ func c07exec(c *h.Ctx, cs *h.Case) {
 		}
 		if held := e.ov.VerifTryLocks(); len(held) > 0 {
 			cs.Fail("lock-held:"+strings.Join(held, ","), fmt.Sprintf("after %q the server holds %v", op, held))
+		}
+		// nothing is stuck at rest: a message is parked only for a tree the server does not have
+		for _, t := range []string{"K", "R", "U"} {
+			if n := e.ov.VerifPendingCount(e.treeID(t)); n > 0 && strings.HasPrefix(e.ov.VerifTreeState(e.treeID(t)), "present") {
+				cs.Fail("parked-message-stuck", fmt.Sprintf("after %q the server has tree %s and still holds %d protocol message(s) parked for it", op, t, n))
+			}
 		}
 		cs.Impl = append(cs.Impl, o)
 	}
@@ -806,6 +923,11 @@ func c07gen(c *h.Ctx, yield func(*h.Case)) {
 		// aggregated kinds at a node with a child: a message of an unknown sender is a batch of its own
 		{"c07 proto freshU member 1", "c07 resptree U roX good roX 1", "c07 proto freshU stranger m1", "c07 proto freshU member m1", "c07 proto freshU stranger m2", "c07 proto freshU spoof m2", "c07 proto freshU member m2"},
 		{"c07 storm 240"},
+		// the window of /repo fafcac0: a message finds tree U (no instance uses it), the tree is removed, a second
+		// message for it is parked and the tree requested again, the first one creates its instance
+		{"c07 proto badprotoU member 1", "c07 resptree U roX good roX 1", "c07 window freshU member 1 | proto freshU member 2", "c07 resptree U roX good roX 1", "c07 proto freshU member m1"},
+		// … the creation fails (no such protocol): the parked message is released all the same; … the answer arrives inside the window
+		{"c07 proto badprotoU member 1", "c07 resptree U roX good roX 1", "c07 window badprotonewU member 1 | proto freshU member m2 | proto badprotoU member 1", "c07 window freshU member 1 | proto freshU stranger 1 | resptree U roX good roX 1 | proto freshU member 2"},
 	} {
 		for _, m := range []string{"direct", "wire-local"} {
 			yield(&h.Case{Class: "corpus", Ops: append([]string{"c07 state idle " + m}, w...)})
@@ -839,6 +961,47 @@ func c07gen(c *h.Ctx, yield func(*h.Case)) {
 		}
 		c.Count("class=sequence mode=" + m)
 		yield(&h.Case{Class: "sequence " + m, Ops: ops})
+	}
+	// windows: tree U is there without an instance (it arrived for a protocol the server does not have); a message
+	// for it gets past the lookup, the removal completes, 0..3 envelopes are handled, the message goes on
+	winA := []string{"freshU member 1", "freshU member m1", "freshU member m2", "freshU member 2", "freshU stranger 1", "freshU none 1", "freshU spoof m1",
+		"badprotoU member 1", "badprotonewU member 1", "badprotonewU none unh", "freshU member 0", "freshK member 1", "freshR member 1", "zero member 1"}
+	winB := []string{"proto freshU member 1", "proto freshU member m1", "proto freshU member m2", "proto freshU member 2", "proto freshU stranger m1", "proto freshU none 1",
+		"proto badprotoU member 1", "proto badprotonewU member 1", "resptree U roX good roX 1", "resptree U roX good roX 1", "resptree U roX empty roX 1", "resptree U roX other roX 1",
+		"resptree U roK good roK 1", "treemarshal U roX good", "treemarshal U roK good", "sendroster roX 1", "reqtree U 0", "reqtree K 0", "reqroster roX",
+		"proto freshK member 1", "proto freshR member 1", "config 1 freshU"}
+	for i := 0; i < c.Pick(36, 900); i++ {
+		m := mode(i)
+		ops := []string{fmt.Sprintf("c07 state %s %s", states[r.Intn(3)], m)}
+		if r.Intn(6) > 0 {
+			ops = append(ops, "c07 proto "+[]string{"badprotoU", "badprotonewU"}[r.Intn(2)]+" member 1")
+		} else {
+			ops = append(ops, "c07 proto freshU member 1") // an instance will use the tree: no window
+		}
+		ops = append(ops, "c07 resptree U roX good roX 1")
+		nb := 0
+		for w := 0; w < 1+r.Intn(3); w++ {
+			op := "c07 window " + winA[r.Intn(len(winA))]
+			k := r.Intn(4)
+			nb += k
+			for j := 0; j < k; j++ {
+				b := winB[r.Intn(len(winB))]
+				op += " | " + b
+			}
+			ops = append(ops, op)
+			for j := 0; j < r.Intn(3); j++ {
+				e := envs[r.Intn(len(envs))]
+				if m != "direct" && e == "c07 config 0" {
+					continue
+				}
+				ops = append(ops, e)
+			}
+			if r.Intn(2) == 0 {
+				ops = append(ops, "c07 resptree U roX good roX 1")
+			}
+		}
+		c.Count(fmt.Sprintf("class=window mode=%s inside=%d", m, nb))
+		yield(&h.Case{Class: "window " + m, Ops: ops})
 	}
 	for i := 0; i < c.Pick(4, 60); i++ {
 		c.Count("class=rawbytes")
